@@ -684,6 +684,9 @@ class C05(ShapesPlan):
         j += simple_jobs("rel", ["ctor", "seed=%d" % (seed + 1)] + (["full", "rot=5"] if big else ["rot=1"]), p, nshards=8 if big else 2)
         j += simple_jobs("dbg", ["faults", "seed=%d" % seed, "part=iter"] + (["big"] if big else []), p)
         j += simple_jobs("rel", ["faults", "seed=%d" % seed, "part=iter"] + (["big"] if big else []), p)
+        # "freed exactly once" also when the destructor that runs at the last release panics
+        j += simple_jobs("dbg", ["faults", "seed=%d" % seed, "part=drop"], p)
+        j += simple_jobs("rel", ["faults", "seed=%d" % seed, "part=drop"], p)
         return j
 
     def required(self, counts, sets, other):
